@@ -183,7 +183,7 @@ def drag(env, nx, ny, k_lam=0.05):
 GT = "geometry.geometry_mesh_transformations."
 
 
-@job("c04.geometry_dvs", ("C04", "C07"), cfgs=[dict(nx=2, ny=2), dict(nx=2, ny=3), dict(nx=3, ny=3, _tier=T)],
+@job("c04.geometry_dvs", ("C04", "C07", "C13"), cfgs=[dict(nx=2, ny=2), dict(nx=2, ny=3), dict(nx=3, ny=3, _tier=T)],
      ranges=RG + [(r"sweep|dihedral|twist", 2.0, 20.0), (r"taper", 0.3, 0.9), (r"chord", 0.6, 1.4), (r"span", 2.0, 6.0)], cost=10)
 def geometry_dvs(env, nx, ny):
     """every mesh transformation applied to the half mesh (symmetry on) and to the mirror-extended full mesh (symmetry off)
@@ -208,7 +208,7 @@ def geometry_dvs(env, nx, ny):
         xf = ext_nodes(x) if node_dv else x
         outh = h.compute({dv: x, "in_mesh": mh})["mesh"]
         outf = f.compute({dv: xf, "in_mesh": mf})["mesh"]
-        env.eq("C04,C07", "%s: full-span result is the mirror extension of the half-span result" % klass, outf, mirror_extend_mesh(outh))
+        env.eq("C04,C07,C13", "%s: full-span result is the mirror extension of the half-span result" % klass, outf, mirror_extend_mesh(outh))
 
     pair("Sweep", "sweep")
     pair("Dihedral", "dihedral")
@@ -223,7 +223,7 @@ def geometry_dvs(env, nx, ny):
     th = env.comp("TaperH", lambda: cls(GT + "Taper")(val=1.0, mesh=ch.copy(), symmetry=True, ref_axis_pos=0.25))
     tf = env.comp("TaperF", lambda: cls(GT + "Taper")(val=1.0, mesh=cf.copy(), symmetry=False, ref_axis_pos=0.25))
     t = env.var("taper", (1,))
-    env.eq("C04,C07", "Taper: full-span result is the mirror extension of the half-span result",
+    env.eq("C04,C07,C13", "Taper: full-span result is the mirror extension of the half-span result",
            tf.compute(dict(taper=t))["mesh"], mirror_extend_mesh(th.compute(dict(taper=t))["mesh"]))
 
 
